@@ -185,16 +185,21 @@ func (m *urlModule) parseURL(s string, isBase bool) *url.URL {
 	if isBase && !u.IsAbs() {
 		panic(m.newInvalidURLError(URLNotAbsolute, s))
 	}
+	m.normalizeURL(u, s)
+	return u
+}
+
+// normalizeURL brings a parsed (or resolved) URL into its canonical form; s is the input reported in errors.
+func (m *urlModule) normalizeURL(u *url.URL, s string) {
 	if isSpecialNetProtocol(u.Scheme) && u.Host == "" && u.Path == "" {
 		panic(m.newInvalidURLError(InvalidURL, s))
 	}
 	if portStr := u.Port(); portStr != "" {
 		if port, err := strconv.Atoi(portStr); err != nil || isDefaultURLPort(u.Scheme, port) {
-			u.Host = u.Hostname() // Clear port
+			clearURLPort(u)
 		}
 	}
 	m.fixURL(u)
-	return u
 }
 
 func fixRawQuery(u *url.URL) {
@@ -435,8 +440,21 @@ func (m *urlModule) createURLConstructor() goja.Value {
 		var u *url.URL
 		if baseArg := call.Argument(1); !goja.IsUndefined(baseArg) {
 			base := m.parseURL(baseArg.String(), true)
-			ref := m.parseURL(call.Argument(0).String(), false)
-			u = base.ResolveReference(ref)
+			refStr := call.Argument(0).String()
+			ref, err := url.Parse(refStr)
+			if err != nil {
+				panic(m.newInvalidURLError(InvalidURL, refStr))
+			}
+			if ref.IsAbs() {
+				u = m.parseURL(refStr, false)
+			} else {
+				// a relative reference is resolved first and normalised afterwards: normalising it on its
+				// own would turn a relative path into an absolute one
+				u = base.ResolveReference(ref)
+				// the fragment is always the reference's, also when the reference is empty
+				u.Fragment, u.RawFragment = ref.Fragment, ref.RawFragment
+				m.normalizeURL(u, refStr)
+			}
 		} else {
 			u = m.parseURL(call.Argument(0).String(), true)
 		}
